@@ -176,6 +176,9 @@ def key_of(spec, check, symptom=None):
          "mm_alias": spec.get("mm_alias", "fresh"), "dtype": spec.get("dtype", "float64"), "mc": spec.get("mc", "callable"),
          "batch": len(spec["batch"]), "n_tridiag": int(bool(spec.get("n_tridiag"))), "fam": spec["fam"],
          "x0": spec.get("x0", "none"), "tcs": bool(spec.get("tcs"))}
+    # memory behaviour of the preconditioner's return value (what the aliasing findings are keyed on)
+    pa = k["pre_alias"]
+    k["pre_returns"] = {"arg": "argument-storage", "view": "argument-storage", "expand": "overlapping-view"}.get(pa, "fresh" if pa != "n/a" else "n/a")
     if symptom:
         k["symptom"] = symptom
     return k
